@@ -33,6 +33,14 @@ func register(tiers string, sc *h.Scenario) {
 	if sc.Cfg.Horizon == 0 {
 		sc.Cfg.Horizon = 120 * time.Second
 	}
+	// a well-formed routing-busy / routing-lost indication that the library's decoder turns down
+	// never reaches the client: judged in every scenario that puts one on the wire (c13.go)
+	if inner := sc.Check; inner != nil {
+		prop := sc.Prop
+		sc.Check = func(tr *mc.Trace) []h.Violation {
+			return append(inner(tr), rejectedIndications(tr, prop)...)
+		}
+	}
 	Registry[sc.Name] = sc
 	if ByProp[sc.Prop] == nil {
 		ByProp[sc.Prop] = map[string][]string{}
